@@ -29,6 +29,7 @@ def run (line : String) : String :=
         | "C13" :: ps => judgeC13 o (ps.map (fun s => if s == "inf" then none else some (parseRat s)))
         | "C14" :: _ => judgeC14 o
         | "C15" :: st :: _ => judgeC15 o (parseRat st)
+        | "C16" :: _ => judgeC16 o
         | "C20" :: n :: _ => judgeC20 o (parseNat! n)
         | _ => ["unknown judge"]
       if v.isEmpty then "ok" else "fail: " ++ " ;; ".intercalate (v.take 5)
